@@ -410,7 +410,7 @@ def isinstance_z3(eng, v, tobj):
     if not isinstance(v, V):
         return z3.BoolVal(False)
     if v.ty[0] == 'opt':
-        inner = isinstance_z3(eng, V(v.ty[1], None), tobj)
+        inner = isinstance_z3(eng, T.opt_val(v), tobj)
         return z3.And(z3.Not(T.is_none(v)), inner)
     if v.ty == NONE:
         return z3.BoolVal(False)
@@ -434,7 +434,19 @@ def isinstance_z3(eng, v, tobj):
     if isinstance(tobj, PyObj) and tobj.kind == 'excclass':
         if v.ty[0] == 'exc':
             return z3.BoolVal(eng.exc.issub(v.ty[1], tobj.payload))
+        if v.ty == ('ref', 'Failure'):
+            # a bare exception instance modelled as a Failure-like object (see twisted_model: `bare`)
+            from . import heap as H
+            from .twisted_model import exc_tag_in
+            return z3.And(H.heap_read(eng, v, 'bare').t, exc_tag_in(eng, H.heap_read(eng, v, 'exc_tag').t, tobj.payload))
         return z3.BoolVal(False)
+    if isinstance(tobj, PyObj) and tobj.kind == 'extern' and tobj.payload.endswith('.Failure'):
+        if isinstance(v, V) and v.ty == ('ref', 'Failure'):
+            from . import heap as H
+            return z3.Not(H.heap_read(eng, v, 'bare').t)
+        return z3.BoolVal(False)
+    if isinstance(tobj, PyObj) and tobj.kind == 'extern' and tobj.payload.endswith('.Deferred'):
+        return z3.BoolVal(isinstance(v, V) and v.ty == ('ref', 'Deferred'))
     raise_unsupported('isinstance against %r' % (tobj,))
 
 
@@ -580,7 +592,10 @@ def b_dict(eng, args, kwargs, fr, node):
 
 
 def b_set(eng, args, kwargs, fr, node):
-    raise_unsupported('set()')
+    """set(): modelled as a list (only emptiness / iteration are used by the code under contract; duplicates harmless)"""
+    if not args:
+        return V(('list', ANY), None)
+    return b_list(eng, args, kwargs, fr, node)
 
 
 def b_min(eng, args, kwargs, fr, node):
@@ -898,7 +913,7 @@ def call_method(eng, fobj, args, kwargs, fr, node):
         if attr == 'format':
             return eng.fresh(STR, 'fmt')
     if k == 'list':
-        if attr == 'append':
+        if attr in ('append', 'add'):
             item = args[0]
             lst = base
             if not eng.pure:
@@ -1072,7 +1087,33 @@ def make_exc(eng, name, args, kwargs):
 
 
 def listcomp(eng, node, fr):
-    raise_unsupported('comprehension')
+    """[e for x in xs if c]: modelled as a list whose length is bounded by the source's (equal without a filter); the
+    elements are left unconstrained (a sound weakening: nothing can be proved from them that is not true)"""
+    from .engine import PyObj
+    if len(node.generators) != 1:
+        raise_unsupported('nested comprehension')
+    g = node.generators[0]
+    src = eng.eval(g.iter, fr)
+    if isinstance(src, PyObj) and src.kind == 'dictview':
+        d = src.payload[0]
+        n = z3.Length(T.dict_keys(d)) if d.ty[1] != ANY else z3.IntVal(0)
+    elif isinstance(src, V) and src.ty[0] in ('list', 'bytes'):
+        n = z3.IntVal(0) if (src.ty[0] == 'list' and src.ty[1] == ANY) else z3.Length(src.t)
+    elif isinstance(src, V) and src.ty[0] == 'tuple':
+        n = z3.IntVal(len(src.ty[1]))
+    else:
+        raise_unsupported('comprehension over %r' % (getattr(src, 'ty', src),))
+    c = eng.contract_for_frame(fr)
+    ety = (c.extra.get('comprehensions', {}) if c is not None else {}).get(getattr(node, 'lineno', 0))
+    r = eng.fresh(('list', T.parse_ty(ety) if ety else ANY_ELEM), 'comp')
+    if g.ifs:
+        eng.assume(z3.And(z3.Length(r.t) >= 0, z3.Length(r.t) <= n))
+    else:
+        eng.assume(z3.Length(r.t) == n)
+    return r
+
+
+ANY_ELEM = ('any',)
 
 
 def bitop(eng, op, a, b):
